@@ -6,7 +6,7 @@ SPEC = dict(
     cases_thorough=45000,
     level="proof",
     technique="Coq theorems over a Gallina model of TransactionGroup::add/optimize, ParallelGroup::optimize, TransactionGroupOptions::optimizable/optimize, AtomicGroup::merge and transaction_size_with_luts, for every sequence of groups, options, payers and lookup tables + differential correspondence (acceptance of every add, the complete group structure after optimize, the size estimate and the real bincode size of every transaction built by the real code) + an independent oracle on the real outputs",
-    text="Proved for all inputs: optimize keeps the flattened instruction sequence, never splits an atomic group, every final group is made from original groups by merges that `optimizable` admitted (all parts mergeable, same payer unless a change is allowed, count and size limits), everything accepted by add passed validate_one; the estimate equals the serialized size below 128 tables / 128 distinct accounts and differs from it by exactly the uncounted compact-u16 bytes otherwise. Two clauses fail on the unchanged code in narrow, characterised ways (known findings): the memo is not counted when groups are added, and the estimate is one byte short per >=128-entry index list.",
+    text="Proved for all inputs: optimize keeps the flattened instruction sequence, never splits an atomic group, every final group is made from original groups by merges that `optimizable` admitted (all parts mergeable, same payer unless a change is allowed, count and size limits), everything accepted by add passed validate_one; the estimate equals the serialized size below 128 tables / 128 distinct accounts and differs from it by exactly the uncounted compact-u16 bytes otherwise. Both former findings (memo not counted by add; compact-u16 bytes missing from the estimate) are repaired: the estimate is proved EQUAL to the serialized size for all inputs and every produced transaction is proved within max_transaction_size.",
     level_note="Trusted: Coq kernel + vm_compute; the hand model of solana-sdk 2.1 message compilation and (short_vec/bincode) serialization length [real_size], of spl-memo/compute-budget instruction shapes, and of BTreeMap table order, all tied by the differential check against bincode::serialize of the transactions the real code builds. Signatures are NullSigner placeholders (size only). Partial: the parallel-group level condition (both parallel groups mergeable and single) is modelled, checked by corr and by the oracle, but the Made-provenance theorem is stated on atomic groups only; memo_signers is always None.",
     design_ref="DESIGN.md section 6, C41",
     explanation="histories of 1-6 adds of parallel groups (0-3 atomic groups, 0-8 instructions with up to 6 accounts, signer/writable flags, shared keys, compute-budget/memo program ids used as accounts), 0-3 lookup tables, limits 300..1232 bytes and 1..14 instructions, memo of 1..200 bytes, payer change allowed or not; 1/25 cases around the 128-entry compact-u16 boundary.",
